@@ -90,6 +90,14 @@ func c08Case(c *rep.Ctx, r c08Replay) {
 		}
 		desc += fmt.Sprintf(" after Mkdir(%s, exts=%q)", model.Key(model.Merge(mf)), r.MkExts)
 	} else if r.MkDepth == nil {
+		for p := range r.State {
+			// (an entry below a regular file is no directory state: such combinations are not cases)
+			for i := strings.LastIndex(p, "/"); i >= 0; i = strings.LastIndex(p[:i], "/") {
+				if k, ok := r.State[p[:i]]; ok && k != 'd' {
+					return
+				}
+			}
+		}
 		fsx.Populate(j.Target, r.State)
 		desc += fmt.Sprintf(" state=%v", keysOf(r.State))
 	}
